@@ -86,6 +86,9 @@ def St.setPacketSize (s : St) (n : Nat) : St := { s with c := { s.c with packetS
 def St.halt (s : St) : St := { s with halted := true }
 def St.setPlat (s : St) (p : Plat) : St := { s with p := p }
 
+/-- `ctx->packet_size - <from>` in `uint32_t` arithmetic -/
+def Ctx.room (c : Ctx) (from_ : Nat) : Nat := u32 (c.packetSize + 4294967296 - from_)
+
 /-- `packet_is_full` l.95 -/
 def Ctx.isFull (c : Ctx) : Bool := c.at_ == c.packetSize
 /-- `packet_is_empty` l.102 -/
@@ -182,19 +185,25 @@ def writeBack (env : SerEnv) (d : DST) (name : String) (v : Int) (s : St) : St :
     let off := (s.c.saved.lookup name).getD 0
     runSer (fun st => writeBits env w.sc w.oib v st) (s.setAt off)
 
-/-- `close_packet` after both guards: write-backs, mark closed -/
-def closeWrite (cfg : Cfg) (d : DST) (ts : Nat) (saved : Bool) (s : St) : St :=
-  let s := s.setContentSize s.c.at_
+/-- the write-backs of `close_packet` (l.372-411): end timestamp, content size, discarded counter -/
+def closeBacks (cfg : Cfg) (d : DST) (ts : Nat) (s : St) : St :=
   let env := serEnvOf cfg d 0 ts s.c
-  let s := if d.feat.tsEnd.isSome then writeBack env d "timestamp_end" ts s else s
-  let s := writeBack env d "content_size" s.c.contentSize s
-  let s := if d.feat.discarded.isSome then writeBack env d "events_discarded" s.c.eventsDiscarded s else s
+  let s1 := if d.feat.tsEnd.isSome then writeBack env d "timestamp_end" ts s else s
+  let s2 := writeBack env d "content_size" s1.c.contentSize s1
+  if d.feat.discarded.isSome then writeBack env d "events_discarded" s2.c.eventsDiscarded s2 else s2
+
+/-- the end of `close_packet` (l.413-426): back to the end of the packet, mark closed -/
+def closeFinish (d : DST) (ts : Nat) (saved : Bool) (s : St) : St :=
   if s.halted then s else
   let s := if d.feat.tsEnd.isSome then s.ev (.tsWrite "end" ts) else s
   let s := s.ev (.closed s.c.contentSize s.c.sequenceNumber s.c.eventsDiscarded)
   let s := (s.setAt s.c.packetSize).setOpen false
   let s := if d.feat.seqNum.isSome then s.setSeqNum (u32 (s.c.sequenceNumber + 1)) else s
   s.setFlag saved
+
+/-- `close_packet` after both guards: save content size, write-backs, mark closed -/
+def closeWrite (cfg : Cfg) (d : DST) (ts : Nat) (saved : Bool) (s : St) : St :=
+  closeFinish d ts saved (closeBacks cfg d ts (s.setContentSize s.c.at_))
 
 /-- `close_packet` after the preamble (l.343-426) -/
 def closeGuarded (cfg : Cfg) (d : DST) (ts : Nat) (s : St) : St :=
@@ -211,15 +220,19 @@ def closePacket (cfg : Cfg) (d : DST) (s : St) : St :=
   let r := preambleTs d d.feat.tsEnd s
   closeGuarded cfg d r.1 r.2
 
+def St.bumpOpen (s : St) : St := s.setPlat { s.p with openCount := s.p.openCount + 1 }
+def St.bumpClose (s : St) : St := s.setPlat { s.p with closeCount := s.p.closeCount + 1 }
+
+/-- the user arguments the platform's open callback passes this time -/
+def St.openArgsNow (s : St) : Args :=
+  if s.p.openArgs.isEmpty then [] else s.p.openArgs.getD (s.p.openCount % s.p.openArgs.length) []
+
 /-- the platform's open callback: calls the generated opening function with scripted user arguments -/
 def cbOpen (cfg : Cfg) (d : DST) (s : St) : St :=
   if s.halted then s else
-  let s := cbEnter .open_ s
-  let n := s.p.openCount
-  let args := if s.p.openArgs.isEmpty then [] else s.p.openArgs.getD (n % s.p.openArgs.length) []
-  let s := s.setPlat { s.p with openCount := n + 1 }
-  let s := openPacket cfg d args s
-  s.ev (.cbExit .open_ s.c.inTracingSection)
+  let s1 := cbEnter .open_ s
+  let s2 := openPacket cfg d s1.openArgsNow s1.bumpOpen
+  s2.ev (.cbExit .open_ s2.c.inTracingSection)
 
 /-- what the platform's close callback does after the closing function returned: hand the buffer
     to the back end, optionally install another buffer -/
@@ -234,11 +247,8 @@ def deliverAndSwap (wasOpen : Bool) (n : Nat) (s : St) : St :=
 /-- the platform's close callback -/
 def cbClose (cfg : Cfg) (d : DST) (s : St) : St :=
   if s.halted then s else
-  let s := cbEnter .close s
-  let wasOpen := s.c.packetIsOpen
-  let n := s.p.closeCount
-  let s := s.setPlat { s.p with closeCount := n + 1 }
-  deliverAndSwap wasOpen n (closePacket cfg d s)
+  let s1 := cbEnter .close s
+  deliverAndSwap s1.c.packetIsOpen s1.p.closeCount (closePacket cfg d s1.bumpClose)
 
 def noSpace (cannotFit : Bool) (s : St) : Bool × St :=
   (false, (s.ev (.discard cannotFit)).setDiscarded (u32 (s.c.eventsDiscarded + 1)))
@@ -251,19 +261,19 @@ def reopenAfterClose (cfg : Cfg) (d : DST) (erSize : Nat) (s : St) : Bool × St 
   let r := cbFull s
   if r.1 then noSpace false r.2 else
   let s := withUseCur (cbOpen cfg d) r.2
-  if erSize ≤ u32 (s.c.packetSize + 4294967296 - s.c.at_) then (true, s)
+  if erSize ≤ s.c.room s.c.at_ then (true, s)
   else (true, (s.ev .assertFail).halt)
 
 /-- the tail of `_reserve_er_space` from "Event fits the current packet?" on (l.214-236) -/
 def reserveTail (cfg : Cfg) (d : DST) (erSize : Nat) (s : St) : Bool × St :=
   if s.halted then (false, s) else
-  if erSize > u32 (s.c.packetSize + 4294967296 - s.c.at_) then
+  if erSize > s.c.room s.c.at_ then
     reopenAfterClose cfg d erSize (withUseCur (cbClose cfg d) s)
   else (true, s)
 
 /-- `_reserve_er_space` l.190-244, tests in source order -/
 def reserve (cfg : Cfg) (d : DST) (erSize : Nat) (s : St) : Bool × St :=
-  if erSize > u32 (s.c.packetSize + 4294967296 - s.c.offContent) then noSpace true s else
+  if erSize > s.c.room s.c.offContent then noSpace true s else
   if s.c.isFull then
     let r := cbFull s
     if r.1 then noSpace false r.2 else
